@@ -63,5 +63,5 @@ def run(ck):
     ck.corr_record("T3 value reuse (generated programs use the asserted value after the assertion; rustc's move checker and a before/after Debug comparison decide)",
                    len(cases), len(nontriv), 0, dist,
                    samples=[dict(position=c.position, invocation="assert_struct!(%s)" % c.text, value=c.value_text, outcome=c.got[0]) for c in cases[:3]],
-                   rule="seeded non-Copy (type, value, pattern) bases x the 16 positions; distinct = distinct (invocation, value); non-trivial = the inner pattern is not `_`")
+                   rule="seeded non-Copy (type, value, pattern) bases x the 17 positions; distinct = distinct (invocation, value); non-trivial = the inner pattern is not `_`")
     ck.assumptions += ["rustc's borrow checker is the oracle for 'moves'; the model's `consumes` judgment (AsModel.Static) is validated against it cell by cell"]
